@@ -897,6 +897,22 @@ def conc_judge(item):
                 _conc_same(scn, i, got, allowed[0], False) or _conc_same(scn, i, got, allowed[1], True))
             if not ok and len(fails) < 1:
                 exp_kinds = {json.dumps(_terminal_kinds(e["logs"])) for e in allowed}
+                top = scn["top"]
+                pair = [top[i]["c"], top[i + 1]["c"]]
+                early = {c["a"] for c in top[:i] if c["c"] == "sub"}        # subscribed before the racing pair
+                racer = top[i]["a"] if pair[0] == "sub" else None
+                glogs = got["logs"] + [[]] * 8
+
+                def others_as(e):
+                    return all(glogs[o] == lg for o, lg in enumerate(e["logs"]) if o + 1 != racer)
+                # witnesses of the two races of the unchanged tree (narrow known findings)
+                racer_c_for_e = bool(pair == ["sub", "error"] and racer and glogs[racer - 1][-1:] == [["C", 0]]
+                                     and others_as(allowed[0]) and not got["hung"] and not got["crashed"]
+                                     and all(r == 0 for r in got["res"]))
+                second = allowed[1]     # the order "completed, then next": the value is ignored
+                late_only = bool(pair == ["next", "completed"] and not got["hung"] and not got["crashed"]
+                                 and all(glogs[o - 1] == second["logs"][o - 1] for o in early)
+                                 and all(r == 0 for r in got["res"]))
                 fails.append({"engine": "subjects-conc", "kind": scn["kind"], "variant": variant, "scn": scn, "i": i,
                               "pair": [scn["top"][i]["c"], scn["top"][i + 1]["c"]],
                               "expected": [{k: e[k] for k in ("res", "logs")} for e in allowed], "observed": got,
@@ -904,6 +920,8 @@ def conc_judge(item):
                               "schedule": [d[1] for d in ds.decisions],
                               "preemptions": sum(1 for d in ds.decisions if d[2] != -1 and d[1] != d[2]),
                               "terminal_kinds_unexpected": json.dumps(_terminal_kinds(got["logs"])) not in exp_kinds,
+                              "racing_subscriber_completed_instead_of_error": racer_c_for_e,
+                              "only_later_subscribers_see_the_racing_value": late_only,
                               "err_profile": variant.get("err", "plain")})
     return n, fails
 
